@@ -1,9 +1,9 @@
 (* C15 - no input makes analysis or generation panic (the string-index arithmetic).
    Strings are UTF-8 byte lists; every Rust slice is a slice that returns Panic exactly when
    Rust panics. Statements, [exact]/projections, Examples and Print Assumptions only. *)
-From Coq Require Import String Ascii List Arith Bool.
-Require Import TT.Model.C15Utf8 TT.Model.C15Funs.
-Require Import TT.Proofs.C15Utf8Facts TT.Proofs.C15FunsProofs.
+From Coq Require Import String Ascii List Arith Bool ZArith.
+Require Import TT.Model.Base TT.Model.C15Utf8 TT.Model.C15Funs TT.Model.C15Project.
+Require Import TT.Proofs.C15Utf8Facts TT.Proofs.C15FunsProofs TT.Proofs.C15ProjectProofs.
 Import ListNotations.
 
 (* every Rust str satisfies the hypothesis of the boundary calculus *)
@@ -98,6 +98,62 @@ Proof. intros s H. apply utf8_wf in H. repeat split.
   - apply safe_not_panic, prefix_safe.
   - apply rename_nf. Qed.
 
+(* the depth counter of find_top_level_comma is an i32: run with overflow checks (Panic when the range
+   is left) the scan equals the model with an unbounded depth for every input of at most 2^31 - 1 bytes;
+   this is the explicit size bound under which the theorems above speak about the code *)
+Theorem C15_depth_bound : forall s, (Z.of_nat (List.length s) <= 2147483647)%Z ->
+  comma_top_chk 0 s = Ok (find_top_level_comma s).
+Proof. intros s H. apply comma_top_chk_exact. simpl. exact H. Qed.
+
+(* the run-time oracle is exactly the statement of the theorems above *)
+Theorem C15_oracle_exact : forall (A : Type) (o : outcome A),
+  returned o = true <-> (exists r, o = Ok r) /\ o <> Panic /\ o <> OutOfFuel.
+Proof. intros A o. destruct o; simpl; split; try discriminate.
+  - intros [[r H] _]. discriminate.
+  - intros [[r H] _]. discriminate.
+  - intros _. split; [eauto|split; discriminate].
+  - reflexivity. Qed.
+
+(* the guarded indexing of syn sequences in the AST walkers: args[0..2] in extract_emit_event,
+   segments[0..1] in is_tauri_command, segments[0..2] in is_tauri_parameter_type never go out of range *)
+Theorem C15_walker_indexing :
+  (forall (A : Type) (emit_to : bool) (args : list A), exists r, emit_select emit_to args = Ok r) /\
+  (forall lc segs, exists b, attr_is_command_b lc segs = Ok b) /\
+  (forall segs, exists b, tauri_param_plain_b segs = Ok b).
+Proof. split; [|split]; intros; apply safe_ok; [apply emit_select_safe|apply attr_is_command_safe|apply tauri_param_safe]. Qed.
+
+(* ---- project level: the per-file loop, for arbitrary syn-level walkers ---- *)
+Section C15Project.
+Context {path name AST cmd ev def : Type} {EN : EqDec name}.
+Variable cmds_of : path -> AST -> list cmd.
+Variable events_of : path -> AST -> list ev.
+Variable names_of : path -> AST -> list name.
+Variable defs_of : AST -> list name.
+Variable extract_type : AST -> name -> option def.
+Variable deps_of : def -> list name.
+Variable arrange : list (path * AST) -> list (path * AST).
+Local Notation analysis := (analysis cmds_of events_of names_of defs_of extract_type deps_of arrange).
+
+(* a file that cannot be read or parsed, anywhere in the walk: what is generated (commands, events,
+   discovered types and their order) is what the run without the file generates, and the file is reported *)
+Theorem C15_isolated : forall (pre post : list (@entry path AST)) (e : entry), is_bad e = true ->
+  generated (analysis (pre ++ e :: post)) = generated (analysis (pre ++ post)) /\
+  (forall r reps, analysis (pre ++ e :: post) = RunOk r reps -> forall x, In x (report_of e) -> In x reps).
+Proof. exact (isolated cmds_of events_of names_of defs_of extract_type deps_of arrange). Qed.
+(* any number of failing files at once; stderr holds exactly their reports, in walk order *)
+Theorem C15_isolated_all : forall es : list (@entry path AST),
+  generated (analysis es) = generated (analysis (filter (fun e => negb (is_bad e)) es)) /\
+  (forall r reps, analysis es = RunOk r reps -> reps = flat_map report_of es).
+Proof. exact (isolated_all cmds_of events_of names_of defs_of extract_type deps_of arrange). Qed.
+(* termination of the whole analysis model with the stated fuels (load loop, resolve_types_lazily with the
+   potential of the generic worklist, type ordering with |universe| + 1): it returns unless walkdir fails *)
+Theorem C15_total_pipeline : forall es : list (@entry path AST), no_walk_error es = true ->
+  exists r reps, analysis es = RunOk r reps.
+Proof. exact (total_pipeline cmds_of events_of names_of defs_of extract_type deps_of arrange). Qed.
+Theorem C15_pipeline_never_out_of_fuel : forall es : list (@entry path AST), analysis es <> RunOutOfFuel.
+Proof. exact (never_out_of_fuel cmds_of events_of names_of defs_of extract_type deps_of arrange). Qed.
+End C15Project.
+
 (* non-vacuity: the premises are satisfiable on non-trivial inputs *)
 Definition ex_bytes (l : list nat) : str := map ascii_of_nat l.
 (* a length attribute whose message is e-acute followed by a: returned whole (it used to be cut) *)
@@ -130,9 +186,26 @@ Example C15_ex_types :
    utf8 s = true /\ parse_type_structure_b s = Ok (TMap (TCustom (ex_bytes [195; 169])) (TCustom (L "(" ++ ex_bytes [227; 128; 128] ++ L "A")))) /\
   split_top_level_b (L "A<B, C>, (D, E), " ++ ex_bytes [195; 169]) = Ok [L "A<B, C>"; L " (D, E)"; L " " ++ ex_bytes [195; 169]].
 Proof. vm_compute. auto 6. Qed.
+Example C15_ex_walkers :
+  emit_select true [10; 11; 12; 13] = Ok (Some (11, 12)) /\ emit_select false [10] = Ok None /\
+  attr_is_command_b true [L "tauri"; L "command"] = Ok true /\ attr_is_command_b true [L "command"] = Ok false /\
+  tauri_param_plain_b [L "tauri"; L "ipc"; L "Channel"] = Ok true /\ tauri_param_plain_b [L "my"; L "State"] = Ok false.
+Proof. vm_compute. auto 8. Qed.
 Example C15_ex_prefix :
   prefix_b (L "User[][] | null") = Ok (L "types.User[][] | null") /\ prefix_b (L "string[][]") = Ok (L "string[][]").
 Proof. vm_compute. auto. Qed.
+
+(* a concrete project: two parsed files with mutually dependent types, one unparsable and one unreadable file *)
+Definition ex_ast := list (nat * list nat).
+Definition ex_analysis := analysis (path := nat) (name := nat) (AST := ex_ast) (cmd := nat) (ev := nat) (def := list nat)
+  (fun p _ => [p]) (fun _ _ => []) (fun _ a => map fst a) (fun a => map fst a)
+  (fun a n => option_map snd (List.find (fun x => Nat.eqb (fst x) n) a)) (fun d => d) (fun c => c).
+Example C15_ex_isolated :
+  let good1 := File 1 (Parsed [(10, [11]); (11, [10; 12])]) in
+  let good2 := File 5 (Parsed [(12, [])]) in
+  exists r, ex_analysis [good1; File 2 Unparsable; Skipped 3; File 4 Unreadable; good2] = RunOk r [FailedToParse 2; FailedToRead 4] /\
+            ex_analysis [good1; Skipped 3; good2] = RunOk r [] /\ r_cmds r = [1; 5] /\ length (r_structs r) = 3 /\ length (r_order r) = 3.
+Proof. eexists. split; [vm_compute; reflexivity|]. split; [vm_compute; reflexivity|]. vm_compute. auto. Qed.
 
 Print Assumptions C15_utf8_wf.
 Print Assumptions C15_parse_type_structure.
@@ -154,3 +227,10 @@ Print Assumptions C15_event_name_to_function.
 Print Assumptions C15_variant.
 Print Assumptions C15_variant_witness.
 Print Assumptions C15_total.
+Print Assumptions C15_depth_bound.
+Print Assumptions C15_oracle_exact.
+Print Assumptions C15_walker_indexing.
+Print Assumptions C15_isolated.
+Print Assumptions C15_isolated_all.
+Print Assumptions C15_total_pipeline.
+Print Assumptions C15_pipeline_never_out_of_fuel.
